@@ -26,6 +26,85 @@ from sa.report import Report  # noqa: E402
 PROPS = ['C01', 'C02', 'C03', 'C04', 'C05', 'C06', 'C07', 'C09', 'C13', 'C14', 'C15', 'C16', 'C17', 'C18', 'C19', 'C20']
 
 
+def _run_rules(pid, tier, root, form, evidence_dir=None, quiet=True, model=None, only_modules=None, helpers=None, only_functions=None):
+    mod = importlib.import_module(f'rules.{pid.lower()}')
+    model = model or Model(root, form=form, only_modules=only_modules, helpers=helpers, only_functions=only_functions)
+    rep = Report(pid, tier, root, evidence_dir=evidence_dir, quiet=quiet)
+    mod.run(model, rep, tier)
+    return rep, model
+
+
+def _excused(o, repf, modelf):
+    """Does the obligation that failed on the source as written hold in the normal form whose complete report is repf?
+    It does when the same rule has obligations for the same construct there and all of them hold (never when it has none:
+    a rule that no longer recognises the construct proves nothing).  A construct that the form removed (a private helper
+    expanded at all its call sites) is judged by the obligations of its class/module siblings."""
+    same = [p for p in repf.obligations if p.rule == o.rule and p.construct == o.construct]
+    if same:
+        return all(p.ok for p in same)
+    if ':' in o.construct and o.construct not in modelf.functions and o.construct not in modelf.classes:
+        prefix = o.construct.rsplit('.', 1)[0] + '.' if '.' in o.construct.split(':', 1)[1] else o.construct.split(':', 1)[0] + ':'
+        sib = [p for p in repf.obligations if p.rule == o.rule and p.construct.startswith(prefix)]
+        return bool(sib) and all(p.ok for p in sib)
+    return False
+
+
+def _relevant(bad, root):
+    """The modules to normalise (those of the failing constructs) and the private helpers whose calls to expand (the failing
+    constructs themselves and what they call): the rest of the tree is left as written."""
+    import ast
+    model = Model(root)
+    mods, helpers, funcs, whole = set(), set(), {}, set()
+    for o in bad:
+        if ':' not in o.construct:
+            continue
+        m = o.construct.split(':', 1)[0]
+        if m in model.modules:
+            mods.add(m)
+        fn = model.functions.get(o.construct)
+        if fn is None and m in model.modules:
+            whole.add(m)
+        if fn is not None:
+            funcs.setdefault(m, set()).add(fn.qualname)
+            helpers.add(fn.name)
+            for n in ast.walk(fn.node):
+                if isinstance(n, ast.Call):
+                    nm = n.func.attr if isinstance(n.func, ast.Attribute) else n.func.id if isinstance(n.func, ast.Name) else None
+                    if nm and nm.startswith('_'):
+                        helpers.add(nm)
+    return (frozenset(mods) or None), frozenset(helpers), {m: frozenset(q) for m, q in funcs.items() if m not in whole}
+
+
+def _decide_in_normal_forms(pid, tier, root, rep):
+    """An obligation is violated only if it fails on the source as written and in every behaviour-preserving normal form
+    of it (sa/normalize.py): a refactoring that names a subexpression or moves lines into a private helper must not alarm."""
+    from sa.normalize import FORMS
+    known = [e for e in rep._known() if e.get('status') == 'known']
+    bad = [o for o in rep.obligations if not o.ok and not any(rep._matches(e, o) for e in known)]
+    if not bad or os.environ.get('VERIF_FORMS') == 'raw':
+        return
+    tried = []
+    mods, helpers, funcs = _relevant(bad, root)
+    for form in FORMS[1:]:
+        try:
+            repf, modelf = _run_rules(pid, tier, root, form, only_modules=mods, helpers=helpers, only_functions=funcs)
+        except Exception as e:    # AnalysisError, or a rule that cannot find its anchor in this form: the form proves nothing
+            tried.append(f'{form} (not analysable: {type(e).__name__})')
+            continue
+        tried.append(form)
+        for o in bad:
+            if not o.ok and _excused(o, repf, modelf):
+                o.ok = True
+                o.detail = f'holds in normal form `{form}` of the source (not as written: {o.detail})'
+                o.extra['normal_form'] = form
+        bad = [o for o in bad if not o.ok]
+        if not bad:
+            break
+    rep.extra_coverage['normal_forms_consulted'] = tried
+    for o in bad:
+        o.extra['normal_forms_consulted'] = tried
+
+
 def analyse(pid, tier, root, evidence_dir=None, quiet=True, model=None):
     """Run the rules of one property and return the Report (nothing printed or written).
     An AnalysisError is re-raised only if no violation was established before it."""
@@ -35,8 +114,11 @@ def analyse(pid, tier, root, evidence_dir=None, quiet=True, model=None):
     try:
         mod.run(model, rep, tier)
     except AnalysisError:
+        _decide_in_normal_forms(pid, tier, root, rep)
         if not any(not o.ok for o in rep.obligations):
             raise
+        return rep
+    _decide_in_normal_forms(pid, tier, root, rep)
     return rep
 
 
@@ -53,9 +135,11 @@ def run_property(pid, tier, root, evidence_dir=None, replay_key=None, quiet=Fals
     except AnalysisError as e:
         # an anchor moved or a construct could not be classified: say so, but do not lose violations that were already established
         print(f'ANALYSIS-ERROR property={pid}: {e}')
+        _decide_in_normal_forms(pid, tier, root, rep)
         if any(not o.ok for o in rep.obligations) and rep.finish(only_key=replay_key) == 1:
             return 1
         return 2
+    _decide_in_normal_forms(pid, tier, root, rep)
     shortfall = False
     if tier == 'thorough' and replay_key is None:
         shortfall = thorough_selftest(pid, root, rep)
